@@ -524,7 +524,13 @@ fn run_parallel(ctx: &Ctx, hs: &[History], jobs: usize, deadline: Option<Instant
                     break;
                 }
                 let work = ctx.scratch.join(format!("job{j}"));
-                let trace = run_history(ctx, &hs[i], &work, j);
+                let mut trace = run_history(ctx, &hs[i], &work, j);
+                if !trace.harness_errors.is_empty() {
+                    // a watchdog on an overloaded machine is not a verdict on anything: the history is a
+                    // pure function of its description, so simply execute it again (once)
+                    eprintln!("simctl: harness problem in history {:?} ({}); executing it again", hs[i].label, trace.harness_errors.join("; "));
+                    trace = run_history(ctx, &hs[i], &work, j);
+                }
                 let vs = if trace.harness_errors.is_empty() { judge(ctx, &hs[i], &trace) } else { vec![] };
                 if tx.send((i, trace, vs)).is_err() {
                     break;
@@ -607,26 +613,26 @@ fn histories_for(ctx: &Ctx, o: &Opts, prop: &str, quick: bool) -> Vec<History> {
     let n = |q: usize, t: usize| o.runs.unwrap_or(if quick { q } else { t });
     match prop {
         "C14" => {
-            for i in 0..n(48, 3000) {
+            for i in 0..n(96, 3000) {
                 let seed = derive(o.seed, "C14", i as u64);
                 hs.push(gen::c14_random(ctx, &mut Rng::new(seed), seed, quick));
             }
         }
         "C16" => {
             let perms = if quick { Perms::Reverse } else { Perms::All };
-            for i in 0..n(24, 400) {
+            for i in 0..n(32, 400) {
                 let seed = derive(o.seed, "C16", i as u64);
                 hs.push(gen::c16_random(ctx, &mut Rng::new(seed), seed, perms, i));
             }
         }
         "C18" => {
-            for i in 0..n(200, 20000) {
+            for i in 0..n(400, 20000) {
                 let seed = derive(o.seed, "C18", i as u64);
                 hs.push(gen::c18_random(ctx, &pool, &mut Rng::new(seed), seed));
             }
         }
         "C19" => {
-            for i in 0..n(40, 2000) {
+            for i in 0..n(80, 2000) {
                 let seed = derive(o.seed, "C19", i as u64);
                 hs.push(gen::c19_random(ctx, &pool, &mut Rng::new(seed), seed));
             }
